@@ -1,6 +1,7 @@
 package main
 
 import (
+	"golang.org/x/tools/go/ssa"
 	"os"
 	"fmt"
 	"go/token"
@@ -50,10 +51,13 @@ type Obligation struct {
 	Output string
 	Model  string
 	QF     bool
+	Ctx    *FnCtx // the function context that generated it (model replay needs the entry values)
 }
 
 // FnCtx is the verification context of one top-level function (one Script).
 type FnCtx struct {
+	topFn     *ssa.Function // the function under verification and its symbolic parameters (model replay)
+	topParams []Val
 	eng       *Engine
 	sc        *Script
 	key       string
@@ -651,7 +655,7 @@ func (fc *FnCtx) oblige1(st *State, kind, path string, goal *Term, pos token.Pos
 	fc.kindCount[key]++
 	name := fmt.Sprintf("%s/%s%s#%d", fc.key, path, kind, fc.kindCount[key])
 	neg := And(st.reach, Not(goal))
-	o := &Obligation{Name: name, Kind: kind, Func: fc.key, NFacts: len(fc.sc.facts), NegGoal: neg.S, Pos: pos, Desc: desc, Script: fc.sc}
+	o := &Obligation{Name: name, Kind: kind, Func: fc.key, NFacts: len(fc.sc.facts), NegGoal: neg.S, Pos: pos, Desc: desc, Script: fc.sc, Ctx: fc}
 	o.QF = !strings.Contains(neg.S, "(forall ") && !strings.Contains(neg.S, "(exists ")
 	if goal.S == "true" || st.reach.S == "false" {
 		o.Status = "proved"
